@@ -209,6 +209,10 @@ class Tx:
         kw = {k.arg: k.value for k in n.keywords}
         ch = self.attr_chain(f) if isinstance(f, ast.Attribute) else None
         # numpy / builtins
+        if isinstance(f, ast.Name) and f.id == "float" and len(args) == 1 and not kw:
+            # `float(x)` of a number: a change of representation, the value is unchanged (Fl has no storage dtypes)
+            s, t = self.expr(args[0])
+            return (self.as_fl(s, t), "fl")
         if (isinstance(f, ast.Name) and f.id == "abs") or ch in (["np", "abs"], ["np", "absolute"]):
             s, t = self.expr(args[0])
             return (f"(SV.Fl.abs {self.as_fl(s, t)})", "fl")
